@@ -17,6 +17,99 @@ from ..pktreplay import conc, replay_queue_path, run_codec_points, truncation_sw
 PAYLOADS = ['plain', 'aaaaaa~~1111', '~a1~', {'k': ['x', 'yyyyy']}, 'tab\tnl\n"quoted"', 'é世 ~~', ['~', '~~', ''], 12, None]
 
 
+def _tlc_queue_traces(arg):
+    import json
+    d, key, recs = arg
+    np_, readers = key
+    tag = f'{np_}_{len(readers)}'
+    path = os.path.join(d, f'qt_{tag}.json')
+    json.dump([{k: v for k, v in r.items() if not k.startswith('_')} for r in recs], open(path, 'w'))
+    cfg = os.path.join(d, f'qt_{tag}.cfg')
+    rs = ', '.join(f'"{r}"' for r in readers)
+    open(cfg, 'w').write(f'CONSTANTS NP = {np_}\nRL = 2\nReaders = {{{rs}}}\nMaxCorrupt = 0\nIds = {{1}}\nUniqueIds = TRUE\nINIT TraceInit\nNEXT TNext\n'
+                         'INVARIANT InOrderOnce\nINVARIANT NothingPartial\nINVARIANT ToldSafe\nINVARIANT NothingLost\nCHECK_DEADLOCK FALSE\n'
+                         'POSTCONDITION AllAccepted\n')
+    return tlc.run_tlc('PacketQueueTrace', cfg=cfg, env={'VERIF_TRACES': path}, workers=1, timeout=900, heap='2g')
+
+
+def queue_traces(ck, d, tier):
+    """Code -> spec: a writer thread really sending while reader threads really receive; every recorded execution must be a behaviour of
+    PacketQueue (PacketQueueTrace), its invariants holding in every state; corrupted copies must be rejected."""
+    import concurrent.futures as cf
+    import copy
+    from ..pktrecord import record_queue_run
+    cases = []
+    for seed in range(ck.seed * 100, ck.seed * 100 + (24 if tier == 'quick' else 120)):
+        cases.append({'np': 4 + 2 * (seed % 2), 'readers': ['r1'] if seed % 3 == 0 else ['r1', 'r2'], 'seed': seed, 'big': seed % 4 == 1})
+    recs = pmap(record_queue_run, cases, procs=8, chunk=1, recycle=100)
+    good = []
+    for r in recs:
+        if 'error' in r:
+            ck.violation({'kind': 'schedule', 'inputs': r['_case'], 'expected': 'send() and receive() running concurrently complete', 'observed': r['error'],
+                          'why': 'a concurrent send / receive raised', 'spec': 'PacketQueueTrace'}, key='qtraise' + r['error'][:30])
+        else:
+            good.append(r)
+    corrupted = []
+    for k, r in enumerate(good[::3]):
+        c = copy.deepcopy(r)
+        ends = [e for e in c['ev'] if e['ev'] == 'recvend' and e['got']]
+        if not ends:
+            continue
+        e = ends[-1] if k % 3 else ends[0]
+        if k % 3 == 0:
+            e['got'] = e['got'][1:] if len(e['got']) > 1 else e['got'] + [e['got'][0]]
+            what = 'a delivered packet dropped / repeated'
+        elif k % 3 == 1 and len(e['got']) > 1:
+            e['got'] = [e['got'][1], e['got'][0]] + e['got'][2:]
+            what = 'two deliveries swapped'
+        else:
+            e['told'] = e['told'] + 1
+            what = 'offset moved by one record'
+        c['_corrupt'] = what
+        corrupted.append(c)
+    groups = {}
+    for r in good + corrupted:
+        groups.setdefault((r['np'], tuple(r['readers'])), []).append(r)
+    keys = sorted(groups)
+    with cf.ThreadPoolExecutor(max_workers=8) as ex:
+        results = list(ex.map(_tlc_queue_traces, [(d, k, groups[k]) for k in keys]))
+    nacc = rejected = 0
+    for k, r in zip(keys, results):
+        ck.add_tlc(r, f'PacketQueueTrace NP={k[0]} readers={len(k[1])} ({len(groups[k])} executions)')
+        if r.violated:
+            ck.violation({'kind': 'schedule', 'inputs': {'spec': 'PacketQueueTrace', 'NP': k[0], 'readers': list(k[1])},
+                          'expected': 'PacketQueue invariants hold in every state of every observed execution', 'observed': r.violated,
+                          'trace': r.trace[:60], 'spec': 'PacketQueue!' + str(r.violated)}, key=f'qtinv{k}{r.violated}')
+            continue
+        acc = r.res.get('accepted')
+        if not acc:
+            raise tlc.MachineryError('PacketQueueTrace produced no acceptance report:\n' + r.stdout[-1500:])
+        accepted = set(acc['accepted']) if isinstance(acc['accepted'], list) else set()
+        for i, rec in enumerate(groups[k], 1):
+            reached = acc['reached'][i - 1] if isinstance(acc['reached'], list) else 0
+            if '_corrupt' in rec:
+                if i in accepted:
+                    ck.notes.setdefault('queue_corruptions_not_rejected', []).append(rec['_corrupt'])
+                else:
+                    rejected += 1
+                continue
+            ck.count(evaluations=1, traces=1, nontrivial=1 if len(rec['ev']) > 20 else 0)
+            if i in accepted:
+                nacc += 1
+                continue
+            ck.violation({'kind': 'schedule', 'inputs': {'execution': rec['_case'], 'events': rec['ev']},
+                          'expected': 'the recorded execution is a behaviour of PacketQueue',
+                          'observed': {'events_matched': max(0, reached - 1), 'of': len(rec['ev']), 'around_rejection': rec['ev'][max(0, reached - 3):reached + 1]},
+                          'why': 'concurrent send / receive execution rejected by PacketQueueTrace', 'spec': 'PacketQueueTrace!TNext'},
+                         key=f"qtrej{rec['ev'][max(0, reached - 1):reached + 1]}")
+    ck.notes['concurrent_queue_executions_validated'] = nacc
+    ck.notes['concurrent_queue_trace_events'] = sum(len(r['ev']) for r in good)
+    ck.notes['queue_corruptions_rejected'] = f'{rejected}/{len(corrupted)}'
+    if corrupted and rejected < len(corrupted):
+        raise tlc.MachineryError(f'PacketQueueTrace binding self-test: only {rejected} of {len(corrupted)} corrupted traces were rejected: '
+                                 f"{ck.notes.get('queue_corruptions_not_rejected')}")
+
+
 def long_runs(_case):
     """RleLaw beyond the lengths TLC enumerates: run counts with 1-6 digits (the count is written in decimal, any length), alone and
     next to the characters the encoding uses; as rle round trip and as packet payload / recipient."""
@@ -219,6 +312,8 @@ def run(tier):
                                                              'behaviour': [a for a, _ in c['path']], 'payloads': repr(c['payloads'])},
                               'expected': 'the queue follows the behaviour', 'observed': o, 'why': o['why'], 'spec': 'PacketQueue!Next'},
                              key=o['why'][:30])
+        # ---- code -> spec: concurrent send / receive executions validated against PacketQueueTrace
+        queue_traces(ck, d, tier)
         # ---- the file cut at every real byte offset of the last record
         sweeps = [{'payloads': PAYLOADS[i:i + 3] or PAYLOADS[:3]} for i in range(0, len(PAYLOADS), 2)]
         res = pmap(truncation_sweep, sweeps, procs=8, chunk=1, recycle=1000)
@@ -232,7 +327,8 @@ def run(tier):
         shutil.rmtree(d, ignore_errors=True)
     ck.cov['rule'] = ('codec: every string over {~,a,1,\\\\,e,ESC,",@} up to length 4/5 and over {~,a,1} up to 7/9 as string payload, dict key and '
                       'list item; queue: TLC exhaustive (3 sends, 3-byte records, 2 readers, chunked appends, reads at every visible length, one '
-                      'corrupted byte; invariants + liveness), edge-covering behaviours replayed on real files, last record cut at every real byte')
+                      'corrupted byte; invariants + liveness), edge-covering behaviours replayed on real files, last record cut at every real byte; code -> spec: '
+                      'a writer thread sending while reader threads receive, each call logged by start and end, validated by TLC against PacketQueueTrace')
     ck.cov['exhaustive'] = True
     ck.assumptions += ['dict keys named __class__ are reserved by the JSON class-marker convention',
                        'uniqueness of packet ids is checked on packets created back to back in one process, not across processes']
